@@ -57,6 +57,10 @@ EXPLANATION += (
     ' Round 5: flatten / drop_level and the other settings are forwarded at every call (R-FWD/parameter-forwarded).'
 )
 
+EXPLANATION += (
+    ' Round 6: a selection call receives parents listed from the very tree it is given (R-SAMEVAL/tree-and-parents).'
+)
+
 RULE_TEXT = (
     "one obligation per consumer of the tree, per reducer call, per "
     "drop_level(<config>) call site, per flatten rebinding")
@@ -79,6 +83,7 @@ def check(ctx):
     from .C08 import check_lists_consulted_follow_tree
     check_lists_consulted_follow_tree(ctx)
     check_stats_through_tree(ctx)
+    check_tree_and_parents_agree(ctx)
     # the level that was dropped is filled in from the finer assignment by
     # the parent table of *that* level (shared with C01)
     from .C01 import check_backfill
@@ -471,3 +476,72 @@ def check_flatten_union_complete(ctx):
                        allow=allow, what='parent',
                        consequence='its marker list is left out of the '
                        'flat marker set')
+
+
+def check_tree_and_parents_agree(ctx):
+    """the query-marker stage hands the selection a tree and a list of
+    parents.  The pairs to discriminate are computed from the tree, the
+    parents from the list: with a level dropped, both have to come from
+    the *same* (reduced) tree.  A parent of the reduced tree looked up in
+    the unreduced tree yields the pairs that cross the dropped level's
+    nodes only, and the markers differ from those of the reduced
+    taxonomy."""
+    from ..core.slicing import backward_slice
+    db = ctx.db
+    rule = 'R-SAMEVAL/tree-and-parents'
+    n = 0
+    for fi in db.iter_functions():
+        if fi.module.short != 'type_assignment.marker_cache_v2':
+            continue
+        cfg = None
+        for c in ast.walk(fi.node):
+            if not isinstance(c, ast.Call):
+                continue
+            t_ = resolve_callee(db, fi, c)
+            if not isinstance(t_, FunctionInfo):
+                continue
+            mapping, _ = bind_args(t_, c)
+            a_tree = mapping.get('taxonomy_tree')
+            a_par = mapping.get('parent_list')
+            if a_tree is None or a_par is None:
+                continue
+            if isinstance(a_par, ast.Constant) and a_par.value is None:
+                continue
+            if cfg is None:
+                cfg = cfg_of(fi)
+                rd = rd_of(fi)
+                ex = Expander(fi)
+            ns = [x for x in cfg.node_of_expr(c) if x.id in rd.live]
+            if not ns:
+                continue
+            at = ns[0].id
+            t_tree = set(term_alts(ex.expand(a_tree, at)))
+            sl = backward_slice(fi, a_par, at)
+            recv = set()
+            for a in sl.attrs:
+                if a.attr in ('all_parents', 'all_leaves', 'as_leaves',
+                              'hierarchy'):
+                    an = [x for x in cfg.node_of_expr(a) if x.id in rd.live]
+                    if an:
+                        recv |= set(term_alts(ex.expand(a.value, an[0].id)))
+            if not recv:
+                # the list is the caller's own parameter: judged at the
+                # caller
+                if sl.params & {'parent_list'}:
+                    continue
+            n += 1
+            ctx.touch(fi)
+            ok = bool(recv) and recv <= t_tree
+            ctx.ob(rule, f'{fi.qual}->{t_.name}', fi.loc(c), ok,
+                   'the parents handed on were listed from the tree that '
+                   'is handed on with them' if ok else
+                   f'`{t_.name}` receives the tree '
+                   f'{fmt_term(ex.expand(a_tree, at))[:60]} but parents '
+                   'listed from '
+                   f'{sorted(fmt_term(r)[:40] for r in recv - t_tree)[:2]}: '
+                   'with a level dropped the two trees differ, and the '
+                   'pairs computed for a parent are not those of the '
+                   'reduced taxonomy')
+    if n < 1:
+        raise AnalysisError('no call handing on both a tree and a parent '
+                            'list found in marker_cache_v2')
